@@ -184,18 +184,20 @@ def gen_random(rng, g, bs, opt, nops, style):
     return h
 
 
-def gen_exhaustive(depth, g, bs, opt):
+def gen_exhaustive(depth, g, bs, opt, small=False):
     """All histories of exactly `depth` operations over a small alphabet on the minimum block size."""
     ge, bse = eff(g, bs)
     pad = 0 if opt & NOPAD else 1
     full = 2 * bse - pad * ge
     alpha = [("A", ge), ("A", 2 * ge + 1), ("A", full // 2), ("A", full), ("A", full - ge), ("A", 2 * bse), ("A", 3 * bse),
              ("R", "first"), ("R", "last"), ("S", "last", 1), ("S", "first", ge), ("Z", 0), ("Z", 1)]
+    if small:    # depth-6 alphabet: 7 letters
+        alpha = [("A", ge), ("A", full), ("A", 2 * bse), ("R", "first"), ("R", "last"), ("S", "last", 1), ("Z", 0)]
     out = []
 
     def rec(prefix, live, na):
         if len(prefix) == depth:
-            h = Hist(g, bs, opt, "exhaustive/%d" % depth)
+            h = Hist(g, bs, opt, "exhaustive/%d%s" % (depth, "s" if small else ""))
             h.ops = list(prefix) + [("T",), ("D",)]
             out.append(h)
             return
@@ -363,6 +365,130 @@ def run_model_only(model, vbits, hists, shards=16):
         for r in ex.map(one, groups):
             out.update(r)
     return [out.get(i, []) for i in range(len(hists))]
+
+
+# ------------------------------------------------------------------ word level: direct calls of BitVectorRangeIterator / bit_vector_*
+def gen_word(rng):
+    k = rng.random()
+    M = (1 << 64) - 1
+    if k < 0.15:
+        return 0
+    if k < 0.3:
+        return M
+    if k < 0.5:
+        w = 0
+        for _ in range(rng.randint(1, 4)):
+            w |= 1 << rng.randrange(64)
+        return w if rng.random() < 0.5 else w ^ M
+    if k < 0.75:       # a few long runs, often touching the word ends
+        a, b = sorted((rng.choice([0, 1, 31, 62, 63, rng.randrange(64)]), rng.choice([1, 2, 63, 64, rng.randrange(65)])))
+        w = ((1 << b) - 1) & ~((1 << a) - 1)
+        return (w if rng.random() < 0.5 else w ^ M) & M
+    return rng.getrandbits(64)
+
+
+def gen_word_lines(rng, count):
+    out = []
+    for _ in range(count):
+        n = rng.choice([1, 1, 2, 2, 3, 4, 6])
+        ws = [gen_word(rng) for _ in range(n)]
+        r = rng.random()
+        if r < 0.7:
+            bits = 64 * n
+            end = rng.choice([bits, bits, 64 * rng.randint(1, n), rng.randint(0, bits)])
+            start = rng.choice([0, rng.randint(0, end), max(0, end - rng.randint(0, 70))])
+            hint = rng.choice([1, 1, 2, 5, 63, 64, 65, 127, 128, 200, (1 << 64) - 1])
+            out.append("I %d %d %d %d %d %s" % (rng.randrange(2), hint, start, end, n, " ".join(map(str, ws))))
+        elif r < 0.9:
+            idx = rng.randint(0, 64 * n)
+            cnt = rng.choice([0, 1, 63, 64, 65, rng.randint(0, 64 * n - idx)])
+            cnt = min(cnt, 64 * n - idx)
+            out.append("K %s %d %d %d %s" % (rng.choice("fc"), idx, cnt, n, " ".join(map(str, ws))))
+        else:
+            # index_of has no end test: make sure both bit values occur in the top two bits of the last word
+            ws[-1] = (ws[-1] | (1 << 63)) & ~(1 << 62)
+            out.append("K i %d %d %d %s" % (rng.randint(0, 64 * n - 2), rng.randrange(2), n, " ".join(map(str, ws))))
+    return out
+
+
+def ref_word_answer(line):
+    """Independent bit-level reference for one I/K line; None if the case is outside the documented contract (a B-bit lies
+    between `end` and the end of its word: the iterator's answer is then only compared with the model)."""
+    t = line.split()
+    if t[0] == "I":
+        b, hint, start, end, n = int(t[1]), int(t[2]), int(t[3]), int(t[4]), int(t[5])
+        ws = [int(x) for x in t[6:6 + n]]
+        bit = lambda j: (ws[j >> 6] >> (j & 63)) & 1
+        up = (end + 63) // 64 * 64
+        if any(bit(j) == b for j in range(end, min(up, 64 * n))):
+            return None
+        out, pos = [], start
+        while True:
+            s = pos
+            while s < end and bit(s) != b:
+                s += 1
+            if s >= end:
+                break
+            e = s
+            while e < end and bit(e) == b:
+                e += 1
+            wb = (s // 64 + 1) * 64
+            cut = e
+            while wb < e:
+                if wb - s >= hint:
+                    cut = wb
+                    break
+                wb += 64
+            out += [s, cut]
+            pos = cut
+        return "I" + "".join(" %d" % x for x in out)
+    op = t[1]
+    a, b2, n = int(t[2]), int(t[3]), int(t[4])
+    ws = [int(x) for x in t[5:5 + n]]
+    if op == "i":
+        j = a
+        while ((ws[j >> 6] >> (j & 63)) & 1) != (1 if b2 else 0):
+            j += 1
+        return "K %d" % j
+    v = sum(w << (64 * i) for i, w in enumerate(ws))
+    m = ((1 << b2) - 1) << a
+    v = (v | m) if op == "f" else (v & ~m)
+    return "K" + "".join(" %d" % ((v >> (64 * i)) & ((1 << 64) - 1)) for i in range(n))
+
+
+def run_word_level(ck, impl, model, vbits, rng, count, stats):
+    lines = gen_word_lines(rng, count)
+    shards = 8
+    chunks = [lines[i::shards] for i in range(shards)]
+
+    def one(chunk):
+        rci, oi, _e = run_exe(impl, [], chunk, timeout=600)
+        rcm, om, _e2 = run_exe(model, [str(vbits)], chunk, timeout=600)
+        return oi, om
+    ncmp = nref = 0
+    with ThreadPoolExecutor(max_workers=shards) as ex:
+        for chunk, (oi, om) in zip(chunks, ex.map(one, chunks)):
+            if len(oi) != len(chunk) or len(om) != len(chunk):
+                ck.violation("C09/harness-crash", "word-level stream: impl answered %d, model %d of %d lines" % (len(oi), len(om), len(chunk)),
+                             {"broken": "word-level run"}, no_input=True)
+                continue
+            for l, x, y in zip(chunk, oi, om):
+                ncmp += 1
+                r = ref_word_answer(l)
+                if r is not None:
+                    nref += 1
+                    if x != r:
+                        ck.violation("C09/word-level/" + l.split()[0] + (l.split()[1] if l[0] == "K" else ""),
+                                     "bit-level reference disagrees with the implementation's %s on `%s`: impl %r, reference %r (model %r)"
+                                     % ("BitVectorRangeIterator" if l[0] == "I" else "bit_vector_" + l.split()[1], l, x, r, y),
+                                     {"history": [l], "impl": x, "model": y, "reference": r})
+                        continue
+                if x != y:
+                    ck.violation("C09/correspondence/word-level", "C18's word-level model and the implementation disagree on `%s`: impl %r, model %r"
+                                 % (l, x, y), {"history": [l], "impl": x, "model": y, "broken": "correspondence of RangeIterModel/BitVecModel with the code"},
+                                 no_input=True)
+    stats["word_level_lines_compared"] = ncmp
+    stats["word_level_lines_judged_by_reference"] = nref
 
 
 def judge_events(h, a):
@@ -663,15 +789,23 @@ def run(ck):
     n_directed = len(hists) - n_corpus
     # bounded-exhaustive
     depth = 4 if quick else 5
-    for opt in ([0, IMM, NOPAD | FILL] if quick else [0, IMM]):
-        hists += gen_exhaustive(depth, 64, 65536, opt)
+    hists += gen_exhaustive(depth, 64, 65536, 0)
+    if quick:
+        for opt in (IMM, NOPAD | FILL):
+            hists += gen_exhaustive(3, 64, 65536, opt)
+    else:
+        hists += gen_exhaustive(4, 64, 65536, IMM)
     if not quick:
         for opt in [NOPAD | FILL, MULTI, DUAL]:
             hists += gen_exhaustive(4, 128, 65536, opt)
+        # every option set: all histories of depth 6 over a 7-letter alphabet on the minimum block size
+        for opt in optsets:
+            if not (opt & LARGE):
+                hists += gen_exhaustive(6, 64, 65536, opt, small=True)
     n_exh = len(hists) - n_corpus - n_directed
     # random
     styles = ["mixed", "tiny", "words", "fill", "big", "edge"]
-    nops = 1500 if quick else 12000
+    nops = 1000 if quick else 8000
     per_cfg = 1 if quick else 2
     for opt in optsets:
         for g in grans:
@@ -731,6 +865,7 @@ def run(ck):
             cut_histories += 1
         compared += judge_history(ck, h, hi, a, mo, m, n, present, stats)
     run_judge(ck, model, [(h, res[hi][0]) for hi, h in enumerate(modelled) if hi in res], stats)
+    run_word_level(ck, impl, model, vbits, rng, 20000 if quick else 400000, stats)
     for (kind, v) in errors:
         # a harness that died: attribute to the histories of that shard unless a known defect explains a crash
         if kind == "impl_error" and "soft-reset-stale-tree-links" in present:
@@ -807,6 +942,8 @@ def run(ck):
          "traces_validated_against_impl": len(modelled), "ops_compared_with_model": compared,
          "ops_monitor_only_large_pages_and_vm_failure": mon_only_ops, "vm_failures_compared_with_model": stats.get("vm_failures_modelled", 0), "histories_cut_at_known_defect": cut_histories,
          "queries_outside_block_not_compared": stats["q_oob"],
+         "word_level_lines_compared": stats.get("word_level_lines_compared", 0),
+         "word_level_lines_judged_by_reference": stats.get("word_level_lines_judged_by_reference", 0),
          "traces_judged_by_proven_checker": stats.get("judge_traces", 0), "events_judged_by_proven_checker": stats.get("judge_events", 0),
          "model_vs_impl_disagreements": stats["disagreements"], "model_variant_bits": vbits,
          "defects_present_by_probe": sorted(present), "known_defect_reports": stats["known_reports"],
